@@ -10,6 +10,7 @@ import (
 func init() { register("C03", checkC03) }
 
 func checkC03(p *Program, r *Reporter) {
+	unitsRuleByName(p, r, "createAudioSegment", "(*asset).generateTimelineEntriesFromRef")
 	r.Explanation = "Static analysis of structural necessary conditions of C03: (a) the audio times the MPD declares (generateTimelineEntriesFromRef) and the audio times at which segments are cut (calcAudioSegRecipe) are produced by the same boundary function calcAudioTimeFromRef, fed with a reference time, the reference timescale, a frame duration and a timescale that come from the reference entries / reference segment and from the audio representation; " +
 		"(b) every time the MPD side emits (first t and every duration) and both segment boundaries are results of that function; (c) the served audio segment's metadata and decode time come from the recipe (start = recipe start, duration = recipe end − start, number = reference number). " +
 		"That segments abut, the frame count, the identity of frames and the padding at the loop end are not decided. The two sides take the frame duration from different fields by design (declared default vs measured constant); their equality is a load-time matter and is not decided."
